@@ -376,6 +376,7 @@ parser! {
       / structure_type_declaration__with_constant()
       / enumerated:enumerated_type_declaration__with_value() { DataTypeDeclarationKind::Enumeration(enumerated) }
       / simple:simple_type_declaration__with_constant() { DataTypeDeclarationKind::Simple(simple )}
+      / simple:simple_type_declaration__elementary() { DataTypeDeclarationKind::Simple(simple )}
       // The remaining are structure, enumerated and simple without an initializer
       // These all have the general form of
       //    `identifier : identifier`
@@ -394,6 +395,14 @@ parser! {
       SimpleDeclaration {
         type_name,
         spec_and_init,
+      }
+    }
+    // A simple type declaration without a constant where the base is an elementary type is
+    // unambiguous because elementary type names are keywords (e.g. `MY_INT : INT;`)
+    rule simple_type_declaration__elementary() -> SimpleDeclaration = type_name:simple_type_name() _ tok(TokenType::Colon) _ et:elementary_type_name() {
+      SimpleDeclaration {
+        type_name,
+        spec_and_init: InitialValueAssignmentKind::simple_uninitialized(et.into()),
       }
     }
     rule simple_spec_init() -> InitialValueAssignmentKind = type_name:simple_specification() _ constant:(tok(TokenType::Assignment) _ c:constant() { c })? {
